@@ -556,7 +556,9 @@ func (s *IncSolver) start() {
 	var cmd *exec.Cmd
 	switch s.name {
 	case "cvc5":
-		cmd = exec.Command("cvc5", "--lang=smt2", "--incremental", "--strings-exp", fmt.Sprintf("--tlimit-per=%d", s.tmoMs))
+		cmd = exec.Command("cvc5", "--lang=smt2", "--incremental", "--produce-models", "--strings-exp", fmt.Sprintf("--tlimit-per=%d", s.tmoMs))
+	case "cvc5-int":
+		cmd = exec.Command("cvc5", "--lang=smt2", "--incremental", "--produce-models", "--solve-bv-as-int=sum", fmt.Sprintf("--tlimit-per=%d", s.tmoMs))
 	default:
 		cmd = exec.Command("z3", "-in", fmt.Sprintf("-t:%d", s.tmoMs))
 	}
